@@ -81,20 +81,11 @@ Proof.
   symmetry. exact (Hc b from E).
 Qed.
 
-(* a prefix the genesis does not carry comes back empty / zeroed: a state with a record there
-   does not survive *)
+(* a prefix the genesis does not carry comes back empty: a state with a record there does not
+   survive *)
 Lemma lost_refuted dv t m b :
   In b (map p_byte (pref_rows t m)) ->
   classify t m b = CovLost ->
-  exists s, get (roundtrip dv t m s) b <> get s b.
-Proof.
-  intros Hin Hl. exists [(b, [(1, 1)])].
-  rewrite (roundtrip_spec dv t m _ b Hin), Hl. unfold get. cbn. rewrite Z.eqb_refl. cbn. discriminate.
-Qed.
-
-Lemma keysonly_refuted dv t m b :
-  In b (map p_byte (pref_rows t m)) ->
-  classify t m b = CovKeysOnly ->
   exists s, get (roundtrip dv t m s) b <> get s b.
 Proof.
   intros Hin Hl. exists [(b, [(1, 1)])].
@@ -186,7 +177,8 @@ Proof. vm_compute. reflexivity. Qed.
 (* every listed hole is a hole of the regenerated table (no stale entry) *)
 Definition hole_is_hole (h : string * Z * Z) : bool :=
   existsb (fun p => String.eqb (p_mod p) (fst (fst h)) && (p_byte p =? snd (fst h)) && live p &&
-                    negb (survives the_table (p_mod p) p)) (t_pref the_table).
+                    negb (survives the_table (p_mod p) p)) (t_pref the_table) &&
+  hole_shape_ok the_table (fst (fst h)) (snd (fst h)).
 Lemma holes_are_holes : forallb hole_is_hole known_holes = true.
 Proof. vm_compute. reflexivity. Qed.
 
